@@ -4,7 +4,7 @@ from props import seqcases, C03 as _C03
 LEVEL = "other"
 TECHNIQUE = "CBMC code contracts (DFCC, loop contracts) on hash_data/memswap/Int/Float/String hash+assign; harness proofs through the real dispatch"
 LEVEL_TEXT = 'DFCC + loop-contract proofs: hash_data reads exactly data[0,size) and assigns nothing for every size <= 4096, memswap exchanges two buffers (ghost-index invariant, z3 back end); Int/Float/String/Type hash and assign contracts; eq => equal hash through the real dispatch for Int and Float; container hash = XOR of element hashes (bounded lengths).'
-NOTE = 'address-independence of hash_data checked only for lengths 0..2 (multiplier miter undecidable for the installed solvers); libc strlen assumed; copy() not yet under contract'
+NOTE = 'address-independence of hash_data checked only for lengths 0..2 (multiplier miter undecidable for the installed solvers); libc strlen assumed; assign dispatcher under contract (self-assignment, byte-copy frame); default hash also on a 12-byte type'
 EXPLANATION = LEVEL_TEXT
 TRUSTED = []
 
